@@ -65,6 +65,9 @@ class _Gen:
                 f["m"] = "V"
             elif not dict_parent and f["m"] == "V":
                 f["m"] = "A"
+            if self.rng.random() < 0.3:   # 1-2 arguments whose names collide with library plumbing parameters
+                names = self.rng.sample(sp.allowed_args(f["m"] if f["m"] in ("P", "C") else "S"), self.rng.choice([1, 1, 2]))
+                f["args"] = {a: self.rng.randint(0, 9) for a in names}
             if f["m"] in ("A", "V"):
                 key = (sp.shape_of(f), f["m"])
                 count[key] = count.get(key, 0) + 1
@@ -227,6 +230,8 @@ def sub_programs(program):
                     yield fields[:i] + [dict(f, b=b[:3] + [b[3][:j] + b[3][j + 1:]])] + fields[i + 1:]
             if f["lv"]:
                 yield fields[:i] + [dict(f, lv=0)] + fields[i + 1:]
+            if f.get("args"):
+                yield fields[:i] + [{k: v for k, v in f.items() if k != "args"}] + fields[i + 1:]
             if f["m"] not in ("S", "V", "A", "P"):
                 yield fields[:i] + [dict(f, m="P")] + fields[i + 1:]
 
